@@ -66,7 +66,7 @@ def Tx.sackT3 (t : Tx) (done : Nat) : Tx × List TxEv :=
 
 theorem receiveSack_eq (t : Tx) (cum : Int) (gaps : List (Nat × Nat)) (now : Int) :
     t.receiveSack cum gaps now =
-      if uint32_gt t.lastSacked cum then .ok none
+      if t.sackStale cum then .ok none
       else
         match ((t.sackAck cum).sackGaps cum gaps now (t.sackDoneBytes cum)).1.sackCwnd cum (t.sackDone cum)
             ((t.sackAck cum).sackGaps cum gaps now (t.sackDoneBytes cum)).2.1 (decide (t.flight ≥ t.cwnd))
